@@ -675,3 +675,7 @@ mod tests {
         }
     }
 }
+
+#[cfg(kani)]
+#[path = "/verif/kani/color.rs"]
+pub(crate) mod verif_kani;
